@@ -356,6 +356,10 @@ def s6(ctx, R):
         if base not in extra_types:
             extra_types.append(base)
     QUOTED, BLOCK, NUMBER, LIST = '"v"', "text:\nline\n.", "10", ['"a"', '"b"']
+    # further list values: an item occurring twice (separators must not depend on where an EQUAL item stands), and the item shapes the
+    # recorder can store (escaped quotes, a trailing backslash, blanks, brackets)
+    LIST_DUP = ['"a"', '"b"', '"a"']
+    LIST_SHAPES = ['"a"', '""', '"a\\"b"', '"x\\""', '"\\\\"', '"a, b"', '"[x]"', '" a "']
 
     def names(t):
         return [t] if isinstance(t, str) else list(t)
@@ -367,6 +371,8 @@ def s6(ctx, R):
             out += [("quoted string", QUOTED), ("text: block", BLOCK)]
         if "stringlist" in ns:
             out.append(("string list", LIST))
+            out.append(("string list with a repeated item", LIST_DUP))
+            out.append(("string list of all item shapes", LIST_SHAPES))
         if "number" in ns:
             out.append(("number", NUMBER))
         return out
@@ -405,7 +411,7 @@ def s6(ctx, R):
         env = {"self.args_definition": fd.Const([slot]), "self.arguments": fd.Const({"slot": val}),
                "self.extra_arguments": fd.Const({"slot": extra} if extra is not None else {}), "self.accept_children": fd.Const(False),
                "self.name": fd.Const("cmd"), "indentlevel": fd.Const(0)}
-        it = fd.Interp(f.node, R.Command.name, oracle, loop_unroll=2, max_depth=2)
+        it = fd.Interp(f.node, R.Command.name, oracle, loop_unroll=max(2, len(expect) + 1 if isinstance(expect, list) else 2), max_depth=2)
         try:
             paths = it.run(env)
         except fd.TooManyPaths:
@@ -417,22 +423,32 @@ def s6(ctx, R):
                 problems.append("raises %s" % p.value)
                 continue
             ws = [x[1] for x in p.events if x[0] == "write"]
-            # cut at the end of the slot loop: the command terminator is written after it
+            # what matters is the text that comes out, however many write() calls produce it
             consts = [w.v if isinstance(w, fd.Const) else None for w in ws]
-            if label == "string list":
-                want = "[%s]" % ", ".join(LIST)
-                if not (any(w is None for w in consts) or consts.count(want) == 1):
+            if label.startswith("string list"):
+                if any(not isinstance(w, str) for w in consts):
+                    if label == "string list":
+                        continue  # an item writer the interpreter cannot follow: judged by the item rule below
                     problems.append("writes %r for a list value" % (consts,))
+                    continue
+                text = "".join(consts)
+                want = "[%s]" % ", ".join(expect)
+                if text.count(want) != 1:
+                    problems.append("writes %r for the list value %r (expected %r once)" % (text, expect, want))
                 continue
-            if consts.count(expect) != 1:
-                problems.append("writes %r: the value %r does not appear exactly once, unchanged" % (consts, expect))
+            if any(not isinstance(w, str) for w in consts):
+                problems.append("writes %r: not all of it is text" % (consts,))
                 continue
-            i = consts.index(expect)
-            nxt = consts[i + 1] if i + 1 < len(consts) else None
-            if label == "text: block" and not (isinstance(nxt, str) and nxt.startswith("\n")):
+            text = "".join(consts)
+            if text.count(expect) != 1:
+                problems.append("writes %r: the value %r does not appear exactly once, unchanged" % (text, expect))
+                continue
+            i = text.index(expect)
+            nxt = text[i + len(expect):i + len(expect) + 1]
+            if label == "text: block" and nxt != "\n":
                 problems.append("writes %r after the text: block instead of a newline" % (nxt,))
-            if extra is not None and (i < 2 or consts[i - 2] != ":tag" or consts[i - 1] != " "):
-                problems.append("the tag and a space do not precede its parameter (%r)" % (consts[:i],))
+            if extra is not None and not text[:i].endswith(":tag "):
+                problems.append("the tag and a space do not precede its parameter (%r)" % (text[:i],))
         if problems:
             ctx.violation("S6", f, "slot-shape:%s" % key, "tosieve, %s holding a %s: %s" % (what, label, problems[0]), node=f.node,
                           witness="a command using this slot form serialises to text that does not re-parse to the same tree")
